@@ -105,6 +105,9 @@ fn check_history(c: &mut Ctx, opts: &Opts, steps: &[Step], counting: bool) -> Re
             if row.icao != *k {
                 return Err(format!("step {}: row keyed {:06X} carries address {:06X}", i, k, row.icao));
             }
+            if !crate::icao_table::reg_ok(*k, &row.reg) {
+                return Err(format!("step {}: after frame {} the row of {:06X} shows country {:?}", i, s.frame.hex(), k, row.reg));
+            }
             if *k != addr {
                 match before.get(k) {
                     None => return Err(format!("step {}: frame {} for {:06X} created a row for {:06X}", i, s.frame.hex(), addr, k)),
@@ -261,6 +264,41 @@ fn run(c: &mut Ctx) {
         c.class_n("payload_bit_basis", n);
     }
 
+    // (a4) adjacency: a frame directly followed by the same payload for an address one bit away (get_icao called
+    // back to back, and both lines in one reader run): attribution must not depend on the previous frame
+    {
+        let seeds = c.draw(c.tier.pick(60usize, 600usize), (proptest::sample::select(NINE.to_vec()), gen::addr(), gen::fill128()));
+        for (i, (df, addr, fill)) in seeds.into_iter().enumerate() {
+            if !c.mine(i as u64) {
+                continue;
+            }
+            let mut lines = Vec::new();
+            let mut want = std::collections::BTreeSet::new();
+            for b in 0..24u32 {
+                for a in [addr, addr ^ (1 << b)] {
+                    let f = build(df, a, fill);
+                    let got = squitterator::get_icao(&nibbles(&f), df);
+                    let expect = if a == 0 { None } else { Some(a) };
+                    if got != expect && !c.failed() {
+                        c.fail(format!("get_icao({}, DF{}) = {:?} directly after the frame for {:06X}; the frame encodes {:06X}", f.hex(), df, got.map(|x| format!("{:06X}", x)), addr, a), "c03:address", json!({"kind":"pair","df":df,"addr":addr,"bit":b,"fill":fill.to_string()}));
+                    }
+                    lines.push(f.hex());
+                    if a != 0 {
+                        want.insert(a);
+                    }
+                }
+            }
+            let t = run::new_table();
+            let r = run::run_lines(&Opts::quiet(), &t, &lines);
+            let keys: std::collections::BTreeSet<u32> = run::snapshot(&t).keys().cloned().collect();
+            c.eval(48);
+            c.class("one_bit_neighbour_addresses");
+            c.nontrivial(&("pair", df, addr, fill));
+            if (r.is_err() || keys != want) && !c.failed() {
+                c.fail(format!("DF{} frames for {:06X} and its 24 one-bit neighbours in one run produce rows {:?} instead of one row per address", df, addr, keys.iter().map(|k| format!("{:06X}", k)).collect::<Vec<_>>()), "c03:address", json!({"kind":"pair","df":df,"addr":addr,"bit":null,"fill":fill.to_string()}));
+            }
+        }
+    }
     // (b) interleaved histories
     let cases = c.tier.pick(6000, 100_000);
     let strat = (gen::opts_ur(), (2usize..=4).prop_flat_map(|n| alphabet::history(n, 5..40, 3)));
@@ -279,6 +317,31 @@ fn run(c: &mut Ctx) {
 fn replay(c: &mut Ctx, case: &Value) {
     c.eval(1);
     match case.get("kind").and_then(|k| k.as_str()) {
+        Some("pair") => {
+            let df = case["df"].as_u64().unwrap_or(0) as u32;
+            let addr = case["addr"].as_u64().unwrap_or(0) as u32;
+            let fill: u128 = case["fill"].as_str().and_then(|s| s.parse().ok()).unwrap_or(0);
+            let mut lines = Vec::new();
+            let mut want = std::collections::BTreeSet::new();
+            for b in 0..24u32 {
+                for a in [addr, addr ^ (1 << b)] {
+                    let f = build(df, a, fill);
+                    let got = squitterator::get_icao(&nibbles(&f), df);
+                    if got != (if a == 0 { None } else { Some(a) }) {
+                        c.fail(format!("get_icao({}, DF{}) = {:?}; the frame encodes {:06X}", f.hex(), df, got, a), "c03:address", case.clone());
+                        return;
+                    }
+                    lines.push(f.hex());
+                    if a != 0 { want.insert(a); }
+                }
+            }
+            let t = run::new_table();
+            let _ = run::run_lines(&Opts::quiet(), &t, &lines);
+            let keys: std::collections::BTreeSet<u32> = run::snapshot(&t).keys().cloned().collect();
+            if keys != want {
+                c.fail(format!("rows {:?} instead of one row per address", keys), "c03:address", case.clone());
+            }
+        }
         Some("single") => {
             let df = case["df"].as_u64().unwrap_or(0) as u32;
             let addr = case["addr"].as_u64().unwrap_or(0) as u32;
